@@ -44,6 +44,9 @@ pub enum Cmd {
     Quit,
     Exit,
     BreakList,
+    /// `break list` bracketed by `echo @b` / `echo @/b`: in the normal output mode what it prints
+    /// (the breakpoint table) is cut out of stderr between the markers (`break_tables`)
+    BreakListB,
     BreakAdd(Loc),
     BreakRemove(Loc),
 }
@@ -110,6 +113,7 @@ impl Cmd {
             Cmd::Quit => "quit".into(),
             Cmd::Exit => "exit".into(),
             Cmd::BreakList => "break list".into(),
+            Cmd::BreakListB => "echo @b\nbreak list\necho @/b".into(),
             Cmd::BreakAdd(l) => format!("break add {}", l.text()),
             Cmd::BreakRemove(l) => format!("break remove {}", l.text()),
         }
@@ -138,6 +142,7 @@ impl Cmd {
             Cmd::Quit => "q".into(),
             Cmd::Exit => "x".into(),
             Cmd::BreakList => "bl".into(),
+            Cmd::BreakListB => format!("e:{} bl e:{}", hex(b"@b"), hex(b"@/b")),
             Cmd::BreakAdd(l) => format!("ba:{}", l.token()),
             Cmd::BreakRemove(l) => format!("br:{}", l.token()),
         }
@@ -504,8 +509,45 @@ pub fn stderr_lines(err: &[u8]) -> Vec<String> {
     out
 }
 
+/// What `break list` printed in the NORMAL output mode, once per `Cmd::BreakListB` of the script:
+/// stderr with the `ESC [ … final-byte` sequences removed, cut between the echo of the command
+/// (`lace~ break list`, after the `[@b]` marker) and the echo of the next one (`lace~ echo @/b`).
+/// Nothing else is touched: box characters, padding, `…`, line breaks inside cells stay.
+pub fn break_tables(err: &[u8]) -> Vec<Vec<u8>> {
+    fn find(h: &[u8], n: &[u8]) -> Option<usize> {
+        if n.is_empty() || h.len() < n.len() {
+            return None;
+        }
+        (0..=h.len() - n.len()).find(|&i| &h[i..i + n.len()] == n)
+    }
+    let s = crate::tty::strip_ansi(err);
+    let mut out = Vec::new();
+    let mut rest: &[u8] = &s;
+    const OPEN: &[u8] = b"[@b]\n";
+    const CMD: &[u8] = b"lace~ break list\n";
+    const CLOSE: &[u8] = b"lace~ echo @/b\n";
+    while let Some(i) = find(rest, OPEN) {
+        rest = &rest[i + OPEN.len()..];
+        let Some(j) = find(rest, CMD) else { break };
+        rest = &rest[j + CMD.len()..];
+        match find(rest, CLOSE) {
+            Some(k) => {
+                out.push(rest[..k].to_vec());
+                rest = &rest[k..];
+            }
+            None => {
+                out.push(rest.to_vec());
+                break;
+            }
+        }
+    }
+    out
+}
+
 pub struct DbgObs {
     pub line: String,
+    /// everything the session wrote to stderr, raw
+    pub err: Vec<u8>,
     /// final observable of the program itself: (outcome, regs, memdiff, stdout) for comparison
     /// with an undebugged run
     pub program: String,
@@ -588,7 +630,7 @@ pub fn run_session_mode(cap: &mut Capture, stack: bool, fuel: u64, inp: &[u8], s
             Err(_) => asm_err = true,
         }
     });
-    let fail = |s: &str| DbgObs { line: s.to_string(), program: s.to_string(), iterations: 0, executed: 0, commands: 0 };
+    let fail = |s: &str| DbgObs { line: s.to_string(), err: Vec::new(), program: s.to_string(), iterations: 0, executed: 0, commands: 0 };
     match load {
         Outcome::Ok => {}
         Outcome::Exit(code) => return fail(&format!("loadexit {}", code)),
@@ -633,6 +675,7 @@ pub fn run_session_mode(cap: &mut Capture, stack: bool, fuel: u64, inp: &[u8], s
             }
             return DbgObs {
                 line: "panic".to_string(),
+                err,
                 program: { let _ = m; "panic".to_string() },
                 iterations,
                 executed: pcs.len(),
@@ -658,7 +701,7 @@ pub fn run_session_mode(cap: &mut Capture, stack: bool, fuel: u64, inp: &[u8], s
         "{} {} |{} | {} {} | {} {:016x} | {} {:016x} | {} | {}",
         head, show_regs(&env), d, hex(&out), left, pcs.len(), fnv(&pcs), ncmds, fnv(&cmd_at), bps, errs
     );
-    DbgObs { line, program, iterations, executed: pcs.len(), commands: ncmds }
+    DbgObs { line, err, program, iterations, executed: pcs.len(), commands: ncmds }
 }
 
 /// A word-level program plus labels and `.break` directives at random statements.
@@ -1307,7 +1350,7 @@ pub fn spell_cmd(rng: &mut Rng, c: &Cmd) -> String {
         Cmd::Reset => pick(rng, &["reset", "z"]),
         Cmd::Quit => pick(rng, &["quit", "q"]),
         Cmd::Exit => pick(rng, &["exit", "x", ":q"]),
-        Cmd::BreakList => pick(rng, &["break list", "b l", "bl", "breaklist", "break l"]),
+        Cmd::BreakList | Cmd::BreakListB => pick(rng, &["break list", "b l", "bl", "breaklist", "break l"]),
         Cmd::BreakAdd(l) => format!("{}{}{}", pick(rng, &["break add", "b a", "ba", "breakadd"]), sp(rng), spell_loc(rng, l)),
         Cmd::BreakRemove(l) => format!("{}{}{}", pick(rng, &["break remove", "b r", "br", "breakremove"]), sp(rng), spell_loc(rng, l)),
     };
